@@ -162,4 +162,55 @@ def normalDef (dim : Nat) (jname : String) (rows cols : Nat) : Expr :=
 def bjacDef (dim : Nat) : Expr :=
   matmat (litmat dim dim ((varMat "Jac" dim dim dim).flatten)) (litmat dim (dim - 1) ((varMat "Jac_to_boundary" dim dim (dim - 1)).flatten))
 
+/-! ### the pass itself: `vf.transform(self.replace_physical_derivs, type=PartialDerivExpr)` followed by
+`vf.transform(self.replace_physical_derivs, type=VarRefExpr)` (vform.py:715-716), non-space-time forms.
+`physIn`: names of the variables whose source is a *physical* input field. -/
+
+/-- apply `f` to every leaf (`PartialDerivExpr` and `VarRefExpr` are leaves); `VForm.transform` with a `type=` filter -/
+def mapLeaves (f : Expr → Expr) : Expr → Expr
+  | litvec es => litvec (es.map (mapLeaves f))
+  | litmat m n es => litmat m n (es.map (mapLeaves f))
+  | neg x => neg (mapLeaves f x)
+  | builtin g x => builtin g (mapLeaves f x)
+  | sop o x y => sop o (mapLeaves f x) (mapLeaves f y)
+  | top o x y => top o (mapLeaves f x) (mapLeaves f y)
+  | cross x y => cross (mapLeaves f x) (mapLeaves f y)
+  | outer x y => outer (mapLeaves f x) (mapLeaves f y)
+  | matvec x y => matvec (mapLeaves f x) (mapLeaves f y)
+  | matmat x y => matmat (mapLeaves f x) (mapLeaves f y)
+  | e => f e
+
+/-- `replace_physical_derivs(e)` for a `PartialDerivExpr` node (vform.py:554-607) -/
+def replacePhysBf (dim : Nat) : Expr → Expr
+  | pderiv b D ph =>
+      if dsum D == 0 then pderiv b D false                         -- e.make_parametric()
+      else if !ph then pderiv b D ph                               -- parametric derivative: no transformation
+      else (physToParaG dim (bfAtom b) D).getD (pderiv b D ph)
+  | e => e
+
+/-- `replace_physical_derivs(e)` for a `VarRefExpr` node -/
+def replacePhysVar (dim : Nat) (physIn : List String) : Expr → Expr
+  | varref v I D par =>
+      if dsum D == 0 then varref v I D true                        -- e.make_parametric()
+      else if physIn.contains v then varref v I D par              -- physical field (parametric derivative of it raises)
+      else if par then varref v I D par                            -- parametric derivative of parametric field
+      else (physToParaG dim (varAtom v I) D).getD (varref v I D par)
+  | e => e
+
+/-- the two `transform` calls: first all `PartialDerivExpr` nodes, then all `VarRefExpr` nodes *of the result*
+(so the `JacInv` / `_geo_hess_trf` references introduced by the first call are made parametric by the second) -/
+def replacePhysAll (dim : Nat) (physIn : List String) (e : Expr) : Expr :=
+  mapLeaves (replacePhysVar dim physIn) (mapLeaves (replacePhysBf dim) e)
+
+/-- Python raises here: parametric derivative of a physical field (RuntimeError) or order ≥ 3 (AssertionError) -/
+def replacePhysRaises (dim : Nat) (physIn : List String) : Expr → Option String
+  | pderiv b D ph =>
+      if dsum D != 0 && ph && (physToParaG dim (bfAtom b) D).isNone then some "err-assertion" else none
+  | varref v I D par =>
+      if dsum D == 0 then none
+      else if physIn.contains v then (if par then some "err-RuntimeError" else none)
+      else if par then none
+      else if (physToParaG dim (varAtom v I) D).isNone then some "err-assertion" else none
+  | _ => none
+
 end Pyiga.VForm
